@@ -39,6 +39,14 @@ pub fn build_pool(corp: &Corpus) -> Vec<PoolEntry> {
         let tree = msggen::message_to_value(&m);
         pool.push(PoolEntry { label: "wireless".into(), tree, msg: m, fresh_len: None, pad_bits: false });
     }
+    // stand-ins for "build_generated_message(number) was called on this builder" (see msggen::use_builder_before)
+    for n in [1005u16, 1077, 1019, 1057, 1029, 1127] {
+        if crate::registry::is_supported(n) {
+            let m = Message::MsgNotSupported(rtcm_rs::msg::message::MsgNotSupportedT { message_number: n });
+            let tree = msggen::message_to_value(&m);
+            pool.push(PoolEntry { label: format!("generated-stand-in/{}", n), tree, msg: m, fresh_len: None, pad_bits: false });
+        }
+    }
     for tc in &corp.types {
         for (i, b) in tc.bases.iter().enumerate() {
             push_entry(&mut pool, format!("{}/base{}", tc.number, i), b.clone());
@@ -178,6 +186,7 @@ pub fn disturbers(seed: u64) -> &'static Vec<usize> {
             }
         };
         take(&|e| e.label == "wireless", 3, &mut out);
+        take(&|e| e.label.starts_with("generated-stand-in"), 6, &mut out);
         take(&|e| e.label.contains("fails-late"), 12, &mut out);
         take(&|e| e.label.contains("msm-bad-first-satellite"), 4, &mut out);
         take(&|e| e.label.contains("msm-duplicate-cell"), 6, &mut out);
